@@ -631,7 +631,7 @@ def visit : Nat → ICtx → Env → Bindings → Sexp → Except Err Sexp
                     let original : Bindings := col.eraseDups.filterMap (fun x => (env.b.get x).map (fun v => (x, v)))
                     match (List.range w).mapM (fun i =>
                         match iterEnv env i original with
-                        | .error e => .error e
+                        | .error e => Except.error e
                         | .ok envi => visit n c envi original (.list sub simp)) with
                     | .error e => .error e
                     | .ok results => .ok (xs.take pos ++ results ++ xs.drop (pos + 2))
@@ -733,11 +733,97 @@ def parseItems : Nat → Bool → Nat → Bool →
           | .error e => .error e
           | .ok (sub, ctx1) => parseItems f imp len top (i + 1) rest (acc ++ [.nested sub]) ell ctx1
 
+/-! ## Classification flags (the negated conjuncts of the guard `G`) -/
+
+/-- What was observed while M expanded a program.  `a`,`b`,`c` are raised by expansion steps, `d`,`e`,`f`
+by the macro definitions. -/
+structure Flags where
+  a : Bool := false   -- a binder in scope at a use is spelled like a free identifier of the template used
+  b : Bool := false   -- nested template expansions exchange identifiers of the same spelling
+  c : Bool := false   -- … and that free identifier is a literal of some macro (literal shadowed at the use site)
+  d : Bool := false   -- a template uses the spelling of one of its own binders outside that binder's scope
+  e : Bool := false   -- a pattern list has an ellipsis followed by a dotted tail
+  f : Bool := false   -- a pattern variable is used under more ellipses than it has in the pattern
+  g : Bool := false   -- an expansion produced a `define-syntax` form (macro-defining macro)
+  deriving DecidableEq, Repr, Inhabited
+
+def Flags.or (x y : Flags) : Flags :=
+  { a := x.a || y.a, b := x.b || y.b, c := x.c || y.c, d := x.d || y.d, e := x.e || y.e, f := x.f || y.f,
+    g := x.g || y.g }
+
+def Flags.none (x : Flags) : Bool := !(x.a || x.b || x.c || x.d || x.e || x.f || x.g)
+
+/-! Static properties of one case that the classification reports (computed at definition time). -/
+
+mutual
+/-- `e`: some pattern list has an ellipsis and a dotted tail. -/
+def patEllRest : Pat → Bool
+  | .many p => patEllRest p
+  | .rest p => patEllRest p
+  | .nested ps => (ps.any Pat.isMany && (match ps.getLast? with | some (.rest _) => true | _ => false))
+                    || patEllRestList ps
+  | _ => false
+def patEllRestList : List Pat → Bool
+  | [] => false
+  | p :: ps => patEllRest p || patEllRestList ps
+end
+
+mutual
+/-- `f`: a pattern variable occurs in the template under a number of ellipses different from its depth. -/
+def depthMismatch (ds : List (Name × Nat)) : Nat → Nat → Sexp → Bool
+  | 0, _, _ => false
+  | _ + 1, d, .id n _ => match lookupDepth ds n with | some pd => pd != d | none => false
+  | f + 1, d, .list xs _ => depthMismatchItems ds f d xs
+  | _ + 1, _, _ => false
+def depthMismatchItems (ds : List (Name × Nat)) : Nat → Nat → List Sexp → Bool
+  | 0, _, _ => false
+  | _ + 1, _, [] => false
+  | f + 1, d, [x] => depthMismatch ds f d x
+  | f + 1, d, x :: y :: rest =>
+      if isEll y then depthMismatch ds f (d + 1) x || depthMismatchItems ds f d rest
+      else depthMismatch ds f d x || depthMismatchItems ds f d (y :: rest)
+end
+
+def pairBinders (pairs : List Sexp) : List Name :=
+  pairs.filterMap (fun p => match p with | .list (.id n _ :: _) _ => some n | _ => none)
+
+def pairInits (pairs : List Sexp) : List Sexp :=
+  pairs.filterMap (fun p => match p with | .list (_ :: e :: _) _ => some e | _ => none)
+
+def lambdaParams : Sexp → List Name
+  | .id n _ => [n]
+  | .list xs _ => xs.filterMap (fun x => match x with | .id n _ => some n | _ => none)
+  | _ => []
+
+mutual
+/-- Identifiers of a template that occur outside the scope of every template binder of that spelling
+(lexical scoping of `lambda`, `let`, named `let`, `define`; quoted identifiers count as occurrences). -/
+def freeOcc : Nat → List Name → Sexp → List Name
+  | 0, _, _ => []
+  | _ + 1, bound, .id n _ => if bound.contains n then [] else [n]
+  | f + 1, bound, .list xs _ =>
+      match xs with
+      | .kw .lambda :: params :: body => freeOccList f (lambdaParams params ++ bound) body
+      | .kw .let_ :: .list pairs _ :: body =>
+          freeOccList f bound (pairInits pairs) ++ freeOccList f (pairBinders pairs ++ bound) body
+      | .kw .let_ :: .id name _ :: .list pairs _ :: body =>
+          freeOccList f bound (pairInits pairs) ++ freeOccList f (name :: pairBinders pairs ++ bound) body
+      | .kw .define :: .id x _ :: rest => freeOccList f (x :: bound) rest
+      | .kw .define :: .list hd _ :: body => freeOccList f (lambdaParams (.list hd false) ++ bound) body
+      | _ => freeOccList f bound xs
+  | _ + 1, _, _ => []
+def freeOccList : Nat → List Name → List Sexp → List Name
+  | 0, _, _ => []
+  | _ + 1, _, [] => []
+  | f + 1, bound, x :: xs => freeOcc f bound x ++ freeOccList f bound xs
+end
+
 structure MacroCase where
   pats : List Pat              -- mangled, including the position of the macro keyword
   body : Sexp                  -- after definition-time renaming
   intro : List Name            -- spellings treated as introduced binders (for the classification)
   depths : List (Name × Nat)   -- pattern variable ↦ ellipsis depth (unmangled names)
+  sflags : Flags := {}         -- static part of the classification (`d`, `e`, `f`)
   deriving Repr, Inhabited
 
 structure Macro where
@@ -760,7 +846,12 @@ def compileCase (name : Name) (lits : List Name) (pattern body : Sexp) : Except 
           if !verifyTemplate depths body then .error .badSyntax
           else
             let r := renameAtDefinition { pvars := depths.map (·.1), lits := lits } body
-            .ok { pats := Pat.mangleList pats, body := r.1, intro := r.2, depths := depths }
+            let fo := freeOcc (2 * body.size + 2) [] body
+            let sfl : Flags :=
+              { d := r.2.any (fun x => fo.contains x),
+                e := patEllRestList pats,
+                f := depthMismatch depths (2 * body.size + 2) 0 body }
+            .ok { pats := Pat.mangleList pats, body := r.1, intro := r.2, depths := depths, sflags := sfl }
   | _ => .error .badSyntax
 
 def compileCases (name : Name) (lits : List Name) : List Sexp → Except Err (List MacroCase)
@@ -808,5 +899,827 @@ def Macro.expand (m : Macro) (c : ICtx) (args : List Sexp) (imp : Bool) : Except
   match findCase c.scope args imp m.cases with
   | none => .error .noMatch
   | some cs => expandCase c cs args imp
+
+
+mutual
+/-- The template's own unresolved identifiers (= its free identifiers after definition-time renaming). -/
+def unresIds : Sexp → List Name
+  | .id n m => if m.unres && !m.intro then [n] else []
+  | .list xs _ => unresIdsList xs
+  | _ => []
+def unresIdsList : List Sexp → List Name
+  | [] => []
+  | x :: xs => unresIds x ++ unresIdsList xs
+end
+
+def anyUnresBinder (xs : List Sexp) : Bool :=
+  xs.any (fun x => match x with | .id _ m => m.unres | _ => false)
+
+/-! ## Expansion to fixed point (`Expander::visit` on un-lowered lists) -/
+
+structure MEnv where
+  macros : List Macro := []
+  globals : List Name := []
+  deriving Repr, Inhabited
+
+def MEnv.find (me : MEnv) (n : Name) : Option Macro := me.macros.find? (fun m => m.name == n)
+def MEnv.allLits (me : MEnv) : List Name := me.macros.flatMap (·.lits)
+
+def paramNames : Sexp → List Name
+  | .id n _ => [n]
+  | .list xs _ => xs.filterMap (fun x => match x with | .id n _ => some n | _ => none)
+  | _ => []
+
+def paramAtoms : Sexp → List Sexp
+  | .list xs _ => xs
+  | e => [e]
+
+mutual
+/-- Atoms of a stored template that sit in binder positions (definition-time renaming marked them
+`introduced_via_macro`). -/
+def binderAtoms : Sexp → List Name
+  | .id n m => if m.intro && !m.unres then [n] else []
+  | .list xs _ => binderAtomsList xs
+  | _ => []
+def binderAtomsList : List Sexp → List Name
+  | [] => []
+  | x :: xs => binderAtoms x ++ binderAtomsList xs
+end
+
+/-- Flags raised by one expansion step.  `sc` = every binder lexically in scope at the use (steel's
+`in_scope` plus the parameters of enclosing `(define (f x …) …)` forms, which steel does not record). -/
+def stepFlags (me : MEnv) (sc : List Name) (cs : MacroCase) (env : Env) : Flags :=
+  let free := unresIds cs.body
+  let shadowed := free.filter (fun x => sc.contains x)
+  let lits := me.allLits
+  let bound := env.b.flatMap (fun kv => kv.2.ids)
+  -- a pattern variable in binder position receives an identifier that an enclosing template left free
+  let binderGetsFree := (binderAtoms cs.body).any (fun v =>
+    match env.b.get v with
+    | some (.id _ m) => m.unres
+    | _ => false)
+  cs.sflags.or
+  { a := shadowed.any (fun x => !lits.contains x),
+    c := shadowed.any (fun x => lits.contains x),
+    b := bound.any (fun x => (cs.intro.map Name.hash).contains x || env.b.any (fun kv => kv.1 == x))
+          || binderGetsFree }
+
+/-- `SteelMacro::expand` together with the information the classification needs. -/
+def Macro.expandInfo (m : Macro) (me : MEnv) (sc lex : List Name) (args : List Sexp) (imp : Bool) :
+    Except Err (Sexp × Flags) :=
+  match findCase sc args imp m.cases with
+  | none => .error .noMatch
+  | some cs =>
+      match collect (cs.pats.drop 1) (args.drop 1) imp with
+      | .error e => .error e
+      | .ok env =>
+          match instantiate { scope := sc, globals := me.globals } (markEnv env) cs.body with
+          | .error e => .error e
+          | .ok r => .ok (r, stepFlags me (sc ++ lex) cs env)
+
+abbrev MRes (α : Type) := Except Err (α × List Name × Flags)
+
+mutual
+/-- `Expander::visit`.  `depth` = `self.depth` (nested expansions), `sc` = `in_scope_values` (all layers);
+the returned scope is the current layer after the visit (`define` adds to it).  `lex` is only used by
+the classification (`stepFlags`). -/
+def expM (me : MEnv) (lex : List Name) : Nat → Nat → List Name → Sexp → MRes Sexp
+  | 0, _, _, _ => .error .fuel
+  | f + 1, depth, sc, .list xs imp =>
+      if depth > 512 then .error .depthLimit
+      else
+        match xs with
+        | .kw .lambda :: params :: body =>
+            match body with
+            | [] => .error .badSyntax
+            | _ =>
+              match expMList me lex f depth (paramNames params ++ sc) body with
+              | .error e => .error e
+              | .ok (body', _, fl) =>
+                  .ok (.list (.kw .lambda :: params :: body') imp, sc,
+                       fl.or { b := anyUnresBinder (paramAtoms params) })
+        | .kw .quote :: _ => .ok (.list xs imp, sc, {})
+        | .kw .let_ :: .list pairs pimp :: body =>
+            match expMPairs me lex f depth sc pairs with
+            | .error e => .error e
+            | .ok (pairs', sc1, fl1) =>
+                match expMList me lex f depth sc1 body with
+                | .error e => .error e
+                | .ok (body', _, fl2) =>
+                    .ok (.list (.kw .let_ :: .list pairs' pimp :: body') imp, sc, fl1.or fl2)
+        | .kw .let_ :: a1 :: body =>
+            match expMList me lex f depth sc body with
+            | .error e => .error e
+            | .ok (body', _, fl) => .ok (.list (.kw .let_ :: a1 :: body') imp, sc, fl)
+        | .kw .define :: a1 :: rest =>
+            let sc1 := match a1 with
+              | .list (.id fn _ :: _) _ => fn :: sc
+              | .id n _ => n :: sc
+              | _ => sc
+            let lex1 := match a1 with
+              | .list (_ :: ps) _ => paramNames (.list ps false) ++ lex
+              | _ => lex
+            match expMList me lex1 f depth sc1 rest with
+            | .error e => .error e
+            | .ok (rest', sc2, fl) => .ok (.list (.kw .define :: a1 :: rest') imp, sc2, fl)
+        | [.kw .define] => .error .badSyntax
+        | .kw .defineSyntax :: a :: b :: rest =>
+            match expM me lex f depth sc b with
+            | .error e => .error e
+            | .ok (b', sc', fl) => .ok (.list (.kw .defineSyntax :: a :: b' :: rest) imp, sc', fl)
+        | .id s m :: args =>
+            match me.find s with
+            | some mac =>
+                -- single source: `sp.source_id() == m.location.source_id()` holds, so a local binding of the
+                -- macro's name does not stop the expansion
+                match mac.expandInfo me sc lex (.id s m :: args) imp with
+                | .error e => .error e
+                | .ok (expanded, fl) =>
+                    match expM me lex f (depth + 1) sc expanded with
+                    | .error e => .error e
+                    | .ok (r, sc', fl') => .ok (r, sc', fl.or fl')
+            | none =>
+                match expMList me lex f depth sc xs with
+                | .error e => .error e
+                | .ok (xs', sc', fl) => .ok (.list xs' imp, sc', fl)
+        | _ =>
+            match expMList me lex f depth sc xs with
+            | .error e => .error e
+            | .ok (xs', sc', fl) => .ok (.list xs' imp, sc', fl)
+  | _ + 1, _, sc, e => .ok (e, sc, {})
+def expMList (me : MEnv) (lex : List Name) : Nat → Nat → List Name → List Sexp → MRes (List Sexp)
+  | 0, _, _, _ => .error .fuel
+  | _ + 1, _, sc, [] => .ok ([], sc, {})
+  | f + 1, depth, sc, x :: xs =>
+      match expM me lex f depth sc x with
+      | .error e => .error e
+      | .ok (x', sc1, fl1) =>
+          match expMList me lex f depth sc1 xs with
+          | .error e => .error e
+          | .ok (xs', sc2, fl2) => .ok (x' :: xs', sc2, fl1.or fl2)
+/-- The binding pairs of a `let`: `define` the binder, visit it, visit the init — pair after pair. -/
+def expMPairs (me : MEnv) (lex : List Name) : Nat → Nat → List Name → List Sexp → MRes (List Sexp)
+  | 0, _, _, _ => .error .fuel
+  | _ + 1, _, sc, [] => .ok ([], sc, {})
+  | f + 1, depth, sc, p :: ps =>
+      match p with
+      | .list l limp =>
+          let sc0 := match l with
+            | .id n _ :: _ => n :: sc
+            | _ => sc
+          let flb : Flags := { b := anyUnresBinder (l.take 1) }
+          match expMList me lex f depth sc0 (l.take 2) with
+          | .error e => .error e
+          | .ok (l', sc1, fl1) =>
+              match expMPairs me lex f depth sc1 ps with
+              | .error e => .error e
+              | .ok (ps', sc2, fl2) => .ok (.list (l' ++ l.drop 2) limp :: ps', sc2, (flb.or fl1).or fl2)
+      | p =>
+          match expMPairs me lex f depth sc ps with
+          | .error e => .error e
+          | .ok (ps', sc2, fl2) => .ok (p :: ps', sc2, fl2)
+end
+
+/-! ## Specification S: R7RS matching with binding trees -/
+
+inductive BTree where
+  | leaf (f : Sexp)
+  | node (ts : List BTree)
+  deriving Repr, Inhabited
+
+abbrev SBind := List (Name × BTree)
+
+def SBind.get (b : SBind) (k : Name) : Option BTree :=
+  match b with
+  | [] => none
+  | (k', v) :: r => if k' == k then some v else SBind.get r k
+
+/-- Number of patterns of a pattern list that are not the dotted tail. -/
+def properCount (ps : List Pat) : Nat :=
+  match ps.getLast? with
+  | some (.rest _) => ps.length - 1
+  | _ => ps.length
+
+def remainderSexp (items : List Sexp) (tail : Option Sexp) : Sexp :=
+  match items, tail with
+  | [], none => Sexp.nil
+  | [], some t => t
+  | items, none => .list items false
+  | items, some t => .list (items ++ [t]) true
+
+def combineRounds (vars : List Name) (rs : List SBind) : SBind :=
+  vars.eraseDups.map (fun v => (v, BTree.node (rs.filterMap (fun r => r.get v))))
+
+mutual
+/-- R7RS 4.3.2: does form `f` match pattern `p`, and with which bindings.  `litEq n s`: the identifier `n`
+of the form and the literal `s` of the macro have the same binding. -/
+def specMatch (litEq : Name → Name → Bool) : Pat → Sexp → Option SBind
+  | .var x, f => some (if x == wildcard then [] else [(x, .leaf f)])
+  | .lit s, f => match f with | .id n _ => if litEq n s then some [] else none | _ => none
+  | .kwlit k, f => match f with | .kw k' => if k == k' then some [] else none | _ => none
+  | .cint n, f => match f with | .int n' => if n == n' then some [] else none | _ => none
+  | .cbool b, f => match f with | .bool b' => if b == b' then some [] else none | _ => none
+  | .many _, _ => none
+  | .rest _, _ => none
+  | .nested ps, f =>
+      match f with
+      | .list xs imp =>
+          if imp then specItems litEq ps xs.dropLast xs.getLast? else specItems litEq ps xs none
+      | f => specItems litEq ps [] (some f)
+def specItems (litEq : Name → Name → Bool) : List Pat → List Sexp → Option Sexp → Option SBind
+  | [], items, tail => if items.isEmpty && tail.isNone then some [] else none
+  | [.rest p], items, tail => specMatch litEq p (remainderSexp items tail)
+  | .many sub :: ps, items, tail =>
+      let after := properCount ps
+      if items.length < after then none
+      else
+        let k := items.length - after
+        match (items.take k).mapM (fun x => specMatch litEq sub x) with
+        | none => none
+        | some rs =>
+            match specItems litEq ps (items.drop k) tail with
+            | none => none
+            | some r => some (combineRounds sub.vars rs ++ r)
+  | p :: ps, items, tail =>
+      match items with
+      | [] => none
+      | x :: items' =>
+          match specMatch litEq p x with
+          | none => none
+          | some r1 =>
+              match specItems litEq ps items' tail with
+              | none => none
+              | some r2 => some (r1 ++ r2)
+end
+
+def specMatchList (litEq : Name → Name → Bool) (ps : List Pat) (xs : List Sexp) (imp : Bool) :
+    Option SBind :=
+  if imp then specItems litEq ps xs.dropLast xs.getLast? else specItems litEq ps xs none
+
+def BTree.children : BTree → Option (List BTree)
+  | .node ts => some ts
+  | .leaf _ => none
+
+mutual
+/-- R7RS template instantiation. -/
+def specInst : Nat → SBind → Sexp → Except Err Sexp
+  | 0, _, _ => .error .fuel
+  | _ + 1, env, .id n m =>
+      match env.get n with
+      | some (.leaf v) => .ok v
+      | some (.node _) => .error .badSyntax
+      | none => .ok (.id n m)
+  | f + 1, env, .list xs imp =>
+      match specInstItems f env xs with
+      | .error e => .error e
+      | .ok ys => .ok (Sexp.mkList ys imp)
+  | _ + 1, _, e => .ok e
+def specInstItems : Nat → SBind → List Sexp → Except Err (List Sexp)
+  | 0, _, _ => .error .fuel
+  | _ + 1, _, [] => .ok []
+  | f + 1, env, x :: .kw .ellipsis :: rest =>
+      let drivers := x.ids.eraseDups.filterMap (fun v =>
+        match env.get v with
+        | some (.node ts) => some (v, ts)
+        | _ => none)
+      match drivers with
+      | [] => .error .badSyntax
+      | (_, ts0) :: _ =>
+          if drivers.any (fun d => d.2.length != ts0.length) then .error .badSyntax
+          else
+            match (List.range ts0.length).mapM (fun i =>
+                specInst f (drivers.filterMap (fun d => (d.2[i]?).map (fun t => (d.1, t))) ++ env) x) with
+            | .error e => .error e
+            | .ok rs =>
+                match specInstItems f env rest with
+                | .error e => .error e
+                | .ok ys => .ok (rs ++ ys)
+  | f + 1, env, x :: rest =>
+      match specInst f env x with
+      | .error e => .error e
+      | .ok y =>
+          match specInstItems f env rest with
+          | .error e => .error e
+          | .ok ys => .ok (y :: ys)
+end
+
+/-! ## Specification S: the ideal expander (every identifier a template introduces is stamped with the
+number of the expansion step; an identifier refers to the binder with exactly its name and stamps, else to
+what the identifier without its latest stamp refers to — i.e. to its meaning where the macro was defined) -/
+
+structure SCase where
+  pats : List Pat            -- unmangled
+  body : Sexp                -- as written
+  pvars : List Name
+  deriving Repr, Inhabited
+
+structure SMacro where
+  name : Name
+  lits : List Name
+  cases : List SCase
+  deriving Repr, Inhabited
+
+def compileSCase (name : Name) (lits : List Name) : Sexp → Except Err SCase
+  | .list [.list l imp, body] _ =>
+      match parseItems (2 * (Sexp.list l imp).size + 2) imp l.length true 0 l [] false
+              { name := name, lits := lits } with
+      | .error e => .error e
+      | .ok (pats, ctx) =>
+          let depths := match l with
+            | .id t _ :: _ => if t == name || lits.contains t then ctx.depths else ctx.depths.filter (fun kv => kv.1 != t)
+            | _ => ctx.depths
+          .ok { pats := pats, body := body, pvars := depths.map (·.1) }
+  | _ => .error .badSyntax
+
+def compileSMacro : Sexp → Except Err SMacro
+  | .list [.kw .defineSyntax, .id name _, .list (.kw .syntaxRules :: .list lits _ :: cases) _] _ =>
+      match litNames lits with
+      | .error e => .error e
+      | .ok ls =>
+          match cases.mapM (compileSCase name ls) with
+          | .error e => .error e
+          | .ok cs => .ok { name := name, lits := ls, cases := cs }
+  | _ => .error .badSyntax
+
+/-- `n`, then `n` without its latest stamp, … down to no stamps. -/
+def stripSeq (n : Name) : List Name :=
+  (List.range (n.marks.length + 1)).map (fun k => { n with marks := n.marks.take (n.marks.length - k) })
+
+/-- The local binder the identifier refers to: exactly its spelling and stamps (macros are defined at top
+level, so no local binder is part of a template's definition environment). -/
+def resolveS (sc : List Name) (n : Name) : Option Name := if sc.contains n then some n else none
+
+mutual
+/-- Stamp every identifier of a template that is not a pattern variable. -/
+def stampT (k : Nat) (pvars : List Name) : Sexp → Sexp
+  | .id n m => if pvars.contains n then .id n m else .id (n.stamp k) m
+  | .list xs i => .list (stampList k pvars xs) i
+  | e => e
+def stampList (k : Nat) (pvars : List Name) : List Sexp → List Sexp
+  | [] => []
+  | x :: xs => stampT k pvars x :: stampList k pvars xs
+end
+
+def findSCase (litEq : Name → Name → Bool) (args : List Sexp) (imp : Bool) :
+    List SCase → Option (SCase × SBind)
+  | [] => none
+  | c :: cs =>
+      match specMatchList litEq (c.pats.drop 1) (args.drop 1) imp with
+      | some b => some (c, b)
+      | none => findSCase litEq args imp cs
+
+def findSMacro (ms : List SMacro) (sc : List Name) (h : Name) : Option SMacro :=
+  if (resolveS sc h).isSome then none
+  else (stripSeq h).findSome? (fun c => ms.find? (fun m => m.name == c))
+
+abbrev SRes (α : Type) := Except Err (α × Nat)
+
+mutual
+def expS (ms : List SMacro) : Nat → Nat → List Name → Sexp → SRes Sexp
+  | 0, _, _, _ => .error .fuel
+  | f + 1, k, sc, .list xs imp =>
+      match xs with
+      | .kw .lambda :: params :: body =>
+          match body with
+          | [] => .error .badSyntax
+          | _ =>
+            match expSList ms f k (paramNames params ++ sc) body with
+            | .error e => .error e
+            | .ok (body', k') => .ok (.list (.kw .lambda :: params :: body') imp, k')
+      | .kw .quote :: _ => .ok (.list xs imp, k)
+      | .kw .let_ :: .list pairs pimp :: body =>
+          -- inits in the outer scope, body in the scope of all binders
+          match expSPairs ms f k sc pairs with
+          | .error e => .error e
+          | .ok (pairs', k1) =>
+              let binders := pairs.filterMap (fun p =>
+                match p with
+                | .list (.id n _ :: _) _ => some n
+                | _ => none)
+              match expSList ms f k1 (binders ++ sc) body with
+              | .error e => .error e
+              | .ok (body', k2) => .ok (.list (.kw .let_ :: .list pairs' pimp :: body') imp, k2)
+      | .kw .define :: a1 :: rest =>
+          let sc1 := match a1 with
+            | .list (_ :: ps) _ => paramNames (.list ps false) ++ sc
+            | _ => sc
+          match expSList ms f k sc1 rest with
+          | .error e => .error e
+          | .ok (rest', k') => .ok (.list (.kw .define :: a1 :: rest') imp, k')
+      | .kw .defineSyntax :: _ => .ok (.list xs imp, k)
+      | .id h m :: args =>
+          match findSMacro ms sc h with
+          | some mac =>
+              let litEq : Name → Name → Bool := fun n s =>
+                (resolveS sc n).isNone && n.strip == s.strip
+              match findSCase litEq (.id h m :: args) imp mac.cases with
+              | none => .error .noMatch
+              | some (c, b) =>
+                  let t := stampT k c.pvars c.body
+                  match specInst (2 * t.size + 2) b t with
+                  | .error e => .error e
+                  | .ok r => expS ms f (k + 1) sc r
+          | none => match expSList ms f k sc xs with
+                    | .error e => .error e
+                    | .ok (xs', k') => .ok (.list xs' imp, k')
+      | _ => match expSList ms f k sc xs with
+             | .error e => .error e
+             | .ok (xs', k') => .ok (.list xs' imp, k')
+  | _ + 1, k, _, e => .ok (e, k)
+def expSList (ms : List SMacro) : Nat → Nat → List Name → List Sexp → SRes (List Sexp)
+  | 0, _, _, _ => .error .fuel
+  | _ + 1, k, _, [] => .ok ([], k)
+  | f + 1, k, sc, x :: xs =>
+      match expS ms f k sc x with
+      | .error e => .error e
+      | .ok (x', k1) =>
+          match expSList ms f k1 sc xs with
+          | .error e => .error e
+          | .ok (xs', k2) => .ok (x' :: xs', k2)
+def expSPairs (ms : List SMacro) : Nat → Nat → List Name → List Sexp → SRes (List Sexp)
+  | 0, _, _, _ => .error .fuel
+  | _ + 1, k, _, [] => .ok ([], k)
+  | f + 1, k, sc, p :: ps =>
+      match p with
+      | .list (x :: e :: more) limp =>
+          match expS ms f k sc e with
+          | .error er => .error er
+          | .ok (e', k1) =>
+              match expSPairs ms f k1 sc ps with
+              | .error er => .error er
+              | .ok (ps', k2) => .ok (.list (x :: e' :: more) limp :: ps', k2)
+      | p =>
+          match expSPairs ms f k sc ps with
+          | .error er => .error er
+          | .ok (ps', k2) => .ok (p :: ps', k2)
+end
+
+/-! ## Programs -/
+
+structure Prog where
+  globals : List Name          -- names that are global when the program is expanded (built-ins)
+  forms : List Sexp            -- top-level forms, `define-syntax` included
+  deriving Repr, Inhabited
+
+def isDefineSyntax : Sexp → Bool
+  | .list (.kw .defineSyntax :: _) _ => true
+  | _ => false
+
+def defaultFuel : Nat := 4000
+
+/-- M on a program: all top-level `define-syntax` forms of the unit are compiled first
+(`extract_macro_defs`), then every other form is expanded in a fresh scope. -/
+def runMForms (fuel : Nat) : MEnv → List Sexp → Except Err (List Sexp × Flags)
+  | _, [] => .ok ([], {})
+  | me, x :: xs =>
+      match expM me [] fuel 0 [] x with
+      | .error e => .error e
+      | .ok (x', _, fl) =>
+          -- a `define-syntax` that comes out of an expansion is NOT registered by steel (macro definitions
+          -- are extracted before expansion); it stays in the program as an expression
+          let flg : Flags := { g := isDefineSyntax x' }
+          match runMForms fuel me xs with
+          | .error e => .error e
+          | .ok (r, fl') => .ok (x' :: r, (fl.or flg).or fl')
+
+def compileAll : List Sexp → Except Err (List Macro)
+  | [] => .ok []
+  | x :: xs =>
+      match compileMacro x with
+      | .error e => .error e
+      | .ok m => match compileAll xs with
+                 | .error e => .error e
+                 | .ok ms => .ok (ms ++ [m])      -- later definitions are found first
+
+def expandM (fuel : Nat) (p : Prog) : Except Err (List Sexp × Flags) :=
+  match compileAll (p.forms.filter isDefineSyntax) with
+  | .error e => .error e
+  | .ok ms => runMForms fuel { macros := ms, globals := p.globals } (p.forms.filter (fun x => !isDefineSyntax x))
+
+def runSForms (fuel : Nat) : List SMacro → Nat → List Sexp → Except Err (List Sexp)
+  | _, _, [] => .ok []
+  | ms, k, x :: xs =>
+      match expS ms fuel k [] x with
+      | .error e => .error e
+      | .ok (x', k') =>
+          if isDefineSyntax x' then
+            match compileSMacro x' with
+            | .error e => .error e
+            | .ok m => runSForms fuel (m :: ms) k' xs
+          else
+            match runSForms fuel ms k' xs with
+            | .error e => .error e
+            | .ok r => .ok (x' :: r)
+
+def compileAllS : List Sexp → Except Err (List SMacro)
+  | [] => .ok []
+  | x :: xs =>
+      match compileSMacro x with
+      | .error e => .error e
+      | .ok m => match compileAllS xs with
+                 | .error e => .error e
+                 | .ok ms => .ok (ms ++ [m])
+
+def expandS (fuel : Nat) (p : Prog) : Except Err (List Sexp) :=
+  match compileAllS (p.forms.filter isDefineSyntax) with
+  | .error e => .error e
+  | .ok ms => runSForms fuel ms 1 (p.forms.filter (fun x => !isDefineSyntax x))
+
+/-! ## α-equivalence: canonical binder names -/
+
+/-- Canonical name of the binder introduced at level `l`. -/
+def canonName (l : Nat) : Name := { base := "%", hashes := l }
+
+def lookupLvl (env : List (Name × Nat)) (n : Name) : Option Nat :=
+  match env with
+  | [] => none
+  | (k, l) :: r => if k == n then some l else lookupLvl r n
+
+/-- Resolve an identifier: the local binder of exactly that name and stamps, else a template-introduced
+top-level definition (that name, else without the latest stamp, …), else the global of that spelling. -/
+def canonRef (genv : List (Name × Nat)) (env : List (Name × Nat)) (n : Name) : Name :=
+  match lookupLvl env n with
+  | some l => canonName l
+  | none =>
+      match (stripSeq n).findSome? (fun c => lookupLvl genv c) with
+      | some g => { base := "%g", hashes := g }
+      | none => n.strip
+
+mutual
+def stripData : Sexp → Sexp
+  | .id n _ => .id n.strip Mark.plain
+  | .list xs i => .list (stripDataList xs) i
+  | e => e
+def stripDataList : List Sexp → List Sexp
+  | [] => []
+  | x :: xs => stripData x :: stripDataList xs
+end
+
+def bindParams (env : List (Name × Nat)) (lvl : Nat) : List Sexp → List Sexp × List (Name × Nat) × Nat
+  | [] => ([], env, lvl)
+  | .id n _ :: rest =>
+      let r := bindParams ((n, lvl) :: env) (lvl + 1) rest
+      (.id (canonName lvl) Mark.plain :: r.1, r.2.1, r.2.2)
+  | e :: rest =>
+      let r := bindParams env lvl rest
+      (e :: r.1, r.2.1, r.2.2)
+
+mutual
+def canon (genv : List (Name × Nat)) : Nat → List (Name × Nat) → Nat → Sexp → Sexp
+  | 0, _, _, e => e
+  | _ + 1, env, _, .id n _ => .id (canonRef genv env n) Mark.plain
+  | f + 1, env, lvl, .list xs imp =>
+      match xs with
+      | .kw .quote :: rest => .list (.kw .quote :: stripDataList rest) imp
+      | .kw .lambda :: params :: body =>
+          match params with
+          | .list ps pimp =>
+              let r := bindParams env lvl ps
+              .list (.kw .lambda :: .list r.1 pimp :: canonList genv f r.2.1 r.2.2 body) imp
+          | .id n _ =>
+              .list (.kw .lambda :: .id (canonName lvl) Mark.plain ::
+                     canonList genv f ((n, lvl) :: env) (lvl + 1) body) imp
+          | e => .list (.kw .lambda :: e :: canonList genv f env lvl body) imp
+      | .kw .let_ :: .list pairs pimp :: body =>
+          let inits := canonInits genv f env lvl pairs
+          let binders := pairs.map (fun p => match p with | .list (x :: _) _ => x | e => e)
+          let r := bindParams env lvl binders
+          let pairs' := (r.1.zip inits).map (fun bi => Sexp.list [bi.1, bi.2] false)
+          .list (.kw .let_ :: .list pairs' pimp :: canonList genv f r.2.1 r.2.2 body) imp
+      | .kw .define :: .list (fn :: ps) pimp :: body =>
+          let r := bindParams env lvl ps
+          .list (.kw .define :: .list (canon genv f env lvl fn :: r.1) pimp ::
+                 canonList genv f r.2.1 r.2.2 body) imp
+      | _ => .list (canonList genv f env lvl xs) imp
+  | _ + 1, _, _, e => e
+def canonList (genv : List (Name × Nat)) : Nat → List (Name × Nat) → Nat → List Sexp → List Sexp
+  | 0, _, _, xs => xs
+  | _ + 1, _, _, [] => []
+  | f + 1, env, lvl, x :: xs => canon genv f env lvl x :: canonList genv f env lvl xs
+def canonInits (genv : List (Name × Nat)) : Nat → List (Name × Nat) → Nat → List Sexp → List Sexp
+  | 0, _, _, _ => []
+  | _ + 1, _, _, [] => []
+  | f + 1, env, lvl, p :: ps =>
+      (match p with
+       | .list (_ :: e :: _) _ => canon genv f env lvl e
+       | _ => Sexp.nil) :: canonInits genv f env lvl ps
+end
+
+/-- Top-level definitions whose name was introduced by a template (it carries `##` or a stamp) are
+numbered in order of appearance, so that M's `##foo` and S's `foo%3` compare equal. -/
+def definedNames : List Sexp → List Name
+  | [] => []
+  | .list (.kw .define :: .id n _ :: _) _ :: rest => n :: definedNames rest
+  | .list (.kw .define :: .list (.id n _ :: _) _ :: _) _ :: rest => n :: definedNames rest
+  | _ :: rest => definedNames rest
+
+def introducedGlobals (forms : List Sexp) : List (Name × Nat) :=
+  let ns := (definedNames forms).filter (fun n => n.hashes > 0 || !n.marks.isEmpty)
+  ns.eraseDups.zipIdx
+
+def canonProg (forms : List Sexp) : List Sexp :=
+  let genv := introducedGlobals forms
+  forms.map (fun x => canon genv (2 * x.size + 2) [] 0 x)
+
+/-- The two expansions are α-equivalent (binders renamed to their nesting level, quoted data and free
+identifiers compared by spelling). -/
+def alphaEq (a b : List Sexp) : Bool := Sexp.beqList (canonProg a) (canonProg b)
+
+
+/-! ## A tiny evaluator for expanded programs (core forms, lexical scoping by spelling) -/
+
+inductive Val where
+  | int (n : Int)
+  | bool (b : Bool)
+  | sym (n : Name)
+  | list (vs : List Val)
+  | clo (params : List Name) (rest : Option Name) (body : List Sexp) (env : List (Name × Val))
+  | prim (p : String)
+  | void
+  deriving Inhabited
+
+mutual
+def Val.beq : Val → Val → Bool
+  | .int a, .int b => a == b
+  | .bool a, .bool b => a == b
+  | .sym a, .sym b => a == b
+  | .list a, .list b => Val.beqList a b
+  | .void, .void => true
+  | _, _ => false
+def Val.beqList : List Val → List Val → Bool
+  | [], [] => true
+  | x :: xs, y :: ys => Val.beq x y && Val.beqList xs ys
+  | _, _ => false
+end
+
+def primNames : List String :=
+  ["list", "cons", "car", "cdr", "+", "-", "*", "=", "<", "not", "null?", "eq?", "equal?", "length", "append"]
+
+mutual
+def dataVal : Sexp → Val
+  | .id n _ => .sym n.strip
+  | .int n => .int n
+  | .bool b => .bool b
+  | .kw _ => .sym (nm "#keyword")
+  | .list xs _ => .list (dataVals xs)
+def dataVals : List Sexp → List Val
+  | [] => []
+  | x :: xs => dataVal x :: dataVals xs
+end
+
+def lookupVal (env : List (Name × Val)) (n : Name) : Option Val :=
+  match env with
+  | [] => none
+  | (k, v) :: r => if k == n then some v else lookupVal r n
+
+def applyPrim (p : String) (args : List Val) : Except Err Val :=
+  match p, args with
+  | "list", vs => .ok (.list vs)
+  | "cons", [a, .list d] => .ok (.list (a :: d))
+  | "car", [.list (a :: _)] => .ok a
+  | "cdr", [.list (_ :: d)] => .ok (.list d)
+  | "+", [.int a, .int b] => .ok (.int (a + b))
+  | "+", [.int a] => .ok (.int a)
+  | "+", [.int a, .int b, .int c] => .ok (.int (a + b + c))
+  | "-", [.int a, .int b] => .ok (.int (a - b))
+  | "*", [.int a, .int b] => .ok (.int (a * b))
+  | "=", [.int a, .int b] => .ok (.bool (a == b))
+  | "<", [.int a, .int b] => .ok (.bool (a < b))
+  | "not", [.bool false] => .ok (.bool true)
+  | "not", [_] => .ok (.bool false)
+  | "null?", [.list []] => .ok (.bool true)
+  | "null?", [_] => .ok (.bool false)
+  | "eq?", [a, b] => .ok (.bool (Val.beq a b))
+  | "equal?", [a, b] => .ok (.bool (Val.beq a b))
+  | "length", [.list l] => .ok (.int l.length)
+  | "append", [.list a, .list b] => .ok (.list (a ++ b))
+  | _, _ => .error .typeErr
+
+def bindArgs (params : List Name) (rest : Option Name) (args : List Val) (env : List (Name × Val)) :
+    Except Err (List (Name × Val)) :=
+  match params, args with
+  | [], args =>
+      match rest with
+      | some r => .ok ((r, .list args) :: env)
+      | none => if args.isEmpty then .ok env else .error .arity
+  | _ :: _, [] => .error .arity
+  | p :: ps, a :: as => bindArgs ps rest as ((p, a) :: env)
+
+def splitParams : Sexp → List Name × Option Name
+  | .id n _ => ([], some n)
+  | .list xs true =>
+      let ns := xs.filterMap (fun x => match x with | .id n _ => some n | _ => none)
+      (ns.dropLast, ns.getLast?)
+  | .list xs false => (xs.filterMap (fun x => match x with | .id n _ => some n | _ => none), none)
+  | _ => ([], none)
+
+mutual
+def eval : Nat → List (Name × Val) → List (Name × Val) → Sexp → Except Err Val
+  | 0, _, _, _ => .error .fuel
+  | _ + 1, _, _, .int n => .ok (.int n)
+  | _ + 1, _, _, .bool b => .ok (.bool b)
+  | _ + 1, _, _, .kw _ => .error .badSyntax
+  | _ + 1, g, env, .id n _ =>
+      match lookupVal env n with
+      | some v => .ok v
+      | none =>
+          match lookupVal g n with
+          | some v => .ok v
+          | none =>
+              if n.hashes == 0 && n.marks.isEmpty && primNames.contains n.base then .ok (.prim n.base)
+              else .error .freeId
+  | f + 1, g, env, .list xs _ =>
+      match xs with
+      | [.kw .quote, d] => .ok (dataVal d)
+      | [.kw .if_, c, t, e] =>
+          match eval f g env c with
+          | .error er => .error er
+          | .ok (.bool false) => eval f g env e
+          | .ok _ => eval f g env t
+      | [.kw .if_, c, t] =>
+          match eval f g env c with
+          | .error er => .error er
+          | .ok (.bool false) => .ok .void
+          | .ok _ => eval f g env t
+      | .kw .lambda :: params :: body =>
+          let sp := splitParams params
+          .ok (.clo sp.1 sp.2 body env)
+      | .kw .let_ :: .list pairs _ :: body =>
+          match evalInits f g env pairs with
+          | .error er => .error er
+          | .ok bs => evalBody f g (bs ++ env) body
+      | .kw .begin_ :: body => evalBody f g env body
+      | .kw .defineSyntax :: _ => .error .freeId     -- compiled as an expression: its pattern variables are free
+      | .kw _ :: _ => .error .notModelled
+      | fn :: args =>
+          match eval f g env fn with
+          | .error er => .error er
+          | .ok fv =>
+              match evalArgs f g env args with
+              | .error er => .error er
+              | .ok avs => apply f g fv avs
+      | [] => .error .badSyntax
+def evalArgs : Nat → List (Name × Val) → List (Name × Val) → List Sexp → Except Err (List Val)
+  | 0, _, _, _ => .error .fuel
+  | _ + 1, _, _, [] => .ok []
+  | f + 1, g, env, x :: xs =>
+      match eval f g env x with
+      | .error er => .error er
+      | .ok v =>
+          match evalArgs f g env xs with
+          | .error er => .error er
+          | .ok vs => .ok (v :: vs)
+def evalInits : Nat → List (Name × Val) → List (Name × Val) → List Sexp → Except Err (List (Name × Val))
+  | 0, _, _, _ => .error .fuel
+  | _ + 1, _, _, [] => .ok []
+  | f + 1, g, env, p :: ps =>
+      match p with
+      | .list [.id n _, e] _ =>
+          match eval f g env e with
+          | .error er => .error er
+          | .ok v =>
+              match evalInits f g env ps with
+              | .error er => .error er
+              | .ok r => .ok (r ++ [(n, v)])          -- a later pair of the same name wins
+      | _ => .error .badSyntax
+def evalBody : Nat → List (Name × Val) → List (Name × Val) → List Sexp → Except Err Val
+  | 0, _, _, _ => .error .fuel
+  | _ + 1, _, _, [] => .ok .void
+  | f + 1, g, env, [x] => eval f g env x
+  | f + 1, g, env, x :: xs =>
+      match eval f g env x with
+      | .error er => .error er
+      | .ok _ => evalBody f g env xs
+def apply : Nat → List (Name × Val) → Val → List Val → Except Err Val
+  | 0, _, _, _ => .error .fuel
+  | f + 1, g, .clo params rest body cenv, args =>
+      match bindArgs params rest args cenv with
+      | .error er => .error er
+      | .ok env' => evalBody f g env' body
+  | _ + 1, _, .prim p, args => applyPrim p args
+  | _ + 1, _, _, _ => .error .typeErr
+end
+
+/-- Evaluate the top-level forms of an expanded program; the value is that of the last expression. -/
+def evalForms (fuel : Nat) : List (Name × Val) → Val → List Sexp → Except Err Val
+  | _, last, [] => .ok last
+  | g, last, x :: xs =>
+      match x with
+      | .list [.kw .define, .id n _, e] _ =>
+          match eval fuel g [] e with
+          | .error er => .error er
+          | .ok v => evalForms fuel ((n, v) :: g) last xs
+      | .list (.kw .define :: .list (.id n _ :: ps) pimp :: body) _ =>
+          let sp := splitParams (.list ps pimp)
+          evalForms fuel ((n, .clo sp.1 sp.2 body []) :: g) last xs
+      | e =>
+          match eval fuel g [] e with
+          | .error er => .error er
+          | .ok v => evalForms fuel g v xs
+
+/-- Value of an expanded program: evaluated on its canonical form (so that an identifier refers to the
+binder `canonRef` resolves it to). -/
+def evalProg (fuel : Nat) (forms : List Sexp) : Except Err Val :=
+  evalForms fuel [] .void (canonProg forms)
 
 end SteelVerif.C13
